@@ -34,6 +34,16 @@ from .bpf import MapFlags, MapType, create_map, lookup_elem, update_elem
 from .ebpf import Expression, FuncId, Map, MemoryDesc, fmtsize
 
 
+def possible_cpus():
+    """the kernel exchanges one value per possible, not per online, CPU"""
+    try:
+        with open("/sys/devices/system/cpu/possible") as fin:
+            ranges = [r.partition("-") for r in fin.read().strip().split(",")]
+        return sum(int(b or a) - int(a) + 1 for a, _, b in ranges)
+    except (OSError, ValueError):
+        return cpu_count()
+
+
 class ArrayGlobalVarDesc(MemoryDesc):
     def __init__(self, map, fmt):
         self.map = map
@@ -217,7 +227,7 @@ class PerCPUArrayMap(ArrayMap):
         return PerCPUVarDesc(self, fmt)
 
     def create_map(self, ebpf, fd):
-        self.cpu_no = cpu_count()
+        self.cpu_no = possible_cpus()
         if fd is None:
             fd = create_map(MapType.PERCPU_ARRAY, 4, self.size, 1)
         setattr(ebpf, self.name, PerCPUReader(self, fd))
